@@ -26,7 +26,7 @@ from holopy.scattering import Sphere, Spheres, RigidCluster, Ellipsoid
 from holopy.scattering.scatterer import Scatterers
 
 TWO_PI = 2 * math.pi
-MAG = {"tiny": 1e-150, "unit": 1.0, "huge": 1e150}
+MAG = {"tiny": 1e-140, "unit": 1.0, "huge": 1e150}   # tiny x skew 1e-6: squares stay normal numbers
 
 
 def load(ctx, mode, consts=None):
@@ -45,6 +45,13 @@ def concretise(pc, rng, n=4):
         z = pc["sz"] * m * rng.uniform(0.5, 2.0)
     else:
         z = coord(pc["sz"])
+    sk = pc.get("skew", "none")
+    if sk == "x_small":
+        x = x * 1e-6
+    elif sk == "y_small":
+        y = y * 1e-6
+    elif sk == "z_small":
+        z = z * 1e-6
     return x, y, z
 
 
@@ -105,7 +112,7 @@ def Ry(t):
 def run(ctx):
     quick = ctx.tier == "quick"
     rng = random.Random(ctx.seed)
-    ctx.rule = ("TLC enumerates 162 point classes (sign pattern x magnitude x scalar/array z) x all "
+    ctx.rule = ("TLC enumerates 648 point classes (sign pattern x magnitude x scalar/array z x one coordinate 1e-6 of the others) x all "
                 "conversion paths <= MaxSteps; Euler representatives in -24..47 (15 degree units) "
                 "under +-full turns and alpha/gamma slide; composites of 1-6 members under lattice "
                 "translations; every edge is executed on the real functions; distinct = edge; "
